@@ -18,6 +18,7 @@ COMMON_ASSUMPTIONS = [
 
 PROPS = {
     "C09": {
+        "autoyield": ["lib/concurrent/concurrent.go"],
         "level": "exploration",
         "design_ref": "DESIGN.md §5.1",
         "technique": "deterministic simulation: seeded schedules over deref/reset!/swap! histories; porcupine linearizability + hang detection + race detector",
@@ -36,6 +37,7 @@ PROPS = {
         "race": True, "race_share": 0.4,
     },
     "C10": {
+        "autoyield": ["lib/concurrent/concurrent.go"],
         "level": "exploration",
         "design_ref": "DESIGN.md §5.2",
         "technique": "deterministic simulation: seeded schedules of body completion vs deref/status/cancel; history obligations O1-O6 + race detector",
